@@ -1,7 +1,7 @@
 (* C07/Properties.v — property theorems only.  Model: C07/Model.v (the code after fix commits
    e89b171, 07b228c; with the known finding F-C07a, whose fix 311264d was reverted by 0819a3f). *)
 From Coq Require Import String Lia.
-From RM Require Import C06.Model C06.Proofs C06.Proofs5 C06.Driver C07.Model C07.Proofs C07.Proofs2 C07.Proofs3 C07.Proofs4 C07.Text C07.Proofs5 C07.Walker C07.Proofs6 C07.Proofs7 C07.Proofs11 C07.Proofs8 C07.Proofs9 C07.Proofs10 C07.Proofs12.
+From RM Require Import C06.Model C06.Proofs C06.Proofs5 C06.Driver C07.Model C07.Proofs C07.Proofs2 C07.Proofs3 C07.Proofs4 C07.Text C07.Proofs5 C07.Walker C07.Proofs6 C07.Proofs7 C07.Proofs11 C07.Proofs13 C07.Proofs8 C07.Proofs9 C07.Proofs10 C07.Proofs12.
 From RM Require C09.Grammar.
 From RM Require C08.Model C08.Proofs.
 Open Scope Z_scope.
@@ -248,6 +248,7 @@ Theorem c07_fpo_recursion_chain :
   forall (n : nat) mem in_stack lookup i ps F rr ebp below esp0,
     let gcps := match ps with Some k => k | None => 0 end in
     below <> [] -> spec_gcps below = gcps ->
+    w_thing i = AllocatesBasePointer false ->
     win_frame_size i gcps = Some F -> 0 <= F ->
     lookup rr = Some (i, ps) ->
     4096 <= rr < 2 ^ 32 -> ebp < 2 ^ 32 -> 0 <= esp0 ->
@@ -320,6 +321,16 @@ Theorem c07_text_route_agrees_parsed :
      Ret (Some r)).
 Proof. exact text_route_agrees_parsed. Qed.
 Print Assumptions c07_text_route_agrees_parsed.
+
+(* the same for BOTH kinds of FPO record per function: allocates_base_pointer = false (ebp passed through) and = true (the
+   caller's ebp is the word at esp + grand-callee parameter size + saved_register_size - 8, inside the frame) *)
+Theorem c07_fpo_recovers_chain_bp :
+  forall mem in_stack lookup (acts : list act_bp) below eip esp ebp,
+    fpo_layout_bp mem in_stack lookup (is_nil below) (spec_gcps below) eip esp ebp acts ->
+    0 <= esp ->
+    fpo_walk (length acts) mem in_stack lookup below (mkX eip esp ebp) = fpo_chain_bp (spec_gcps below) esp acts.
+Proof. exact fpo_recovers_chain_bp. Qed.
+Print Assumptions c07_fpo_recovers_chain_bp.
 
 (* ---- non-vacuity ---- *)
 Example c07_nonvacuous_doc_example :
@@ -436,5 +447,26 @@ Example c07_nonvacuous_fpo_layout :
     [(leaf, None, 1073750096); (recurse, Some 0, 1073750096); (recurse, Some 0, 1073750096); (recurse, Some 0, 1073754112)].
 Proof.
   cbn [fpo_layout]. repeat split; try reflexivity; try (intro Hc; discriminate Hc); try (vm_compute; intro Hc; discriminate Hc);
+    try (vm_compute; reflexivity); try (intros _ Hc; discriminate Hc).
+Qed.
+
+Example c07_nonvacuous_fpo_layout_bp :
+  (* leaf (abp = false, no FUNC) <- f (abp = true, 8 bytes of saved registers, parameter size 4: its saved ebp 0x80000040 sits
+     at esp + 0 + 8 - 8) <- g (abp = false; its frame starts with the 4 bytes of arguments pushed for f) *)
+  let mem := mem_read 4 2147483648
+     [1;1;1;1; 80;32;0;64;   64;0;0;128; 9;9;9;9; 16;48;0;64;   4;4;4;4; 5;5;5;5; 0;64;0;64;  0;0;0;0] in
+  let leaf := mkWin 4096 256 0 0 0 0 4 0 (AllocatesBasePointer false) in
+  let f := mkWin 8192 256 0 0 4 8 0 0 (AllocatesBasePointer true) in
+  let g := mkWin 12288 256 0 0 0 0 4 0 (AllocatesBasePointer false) in
+  let lookup := fun ip => if (1073745920 <=? ip) && (ip <? 1073746176) then Some (leaf, None)
+                          else if (1073750016 <=? ip) && (ip <? 1073750272) then Some (f, Some 4)
+                          else if (1073754112 <=? ip) && (ip <? 1073754368) then Some (g, Some 0) else None in
+  let acts := [(leaf, None, 1073750096, 7); (f, Some 4, 1073754128, 2147483712); (g, Some 0, 1073758208, 2147483712)] in
+  fpo_layout_bp mem (fun sp => (2147483648 <=? sp) && (sp <? 2147483700)) lookup true 0 1073745936 2147483648 7 acts /\
+  fpo_chain_bp 0 2147483648 acts =
+    [mkX 1073750096 2147483656 7; mkX 1073754128 2147483668 2147483712; mkX 1073758208 2147483680 2147483712].
+Proof.
+  split; [|vm_compute; reflexivity].
+  cbn [fpo_layout_bp]. repeat split; try reflexivity; try (intro Hc; discriminate Hc); try (vm_compute; intro Hc; discriminate Hc);
     try (vm_compute; reflexivity); try (intros _ Hc; discriminate Hc).
 Qed.
